@@ -77,3 +77,6 @@ SPEC = {'id': 'C10',
              'golang.org/x/net/html Tokenizer (token.go), bufio.Scanner with splitASCIIWhitespace, io.Pipe delivery of one '
              'Write per Read'],
  'assumptions': ['the document reader obeys the io.Reader contract; the caller reads the decoder with non-empty buffers']}
+
+SPEC['rule'] += (' Added after the seeded-change rounds: ' +
+    'Every case is evaluated twice, in different orders and interleaved with other documents (vh.Independent: encoder and decoder results depend on the input alone, no state survives between calls).')
